@@ -13,6 +13,8 @@ namespace Shentu.EVM
 inductive Err where
   | insufficientGas | dataStackUnderflow | integerOverflow | generic | inputOutOfBounds
   | invalidJumpDest | executionAborted | executionReverted | returnDataOutOfBounds | insufficientBalance
+  | dataStackOverflow | unknownAddress | nonExistentAccount | illegalWrite | duplicateAddress
+  | invalidBlockNumber | blockNumberOutOfRange
   deriving DecidableEq, Repr, Inhabited
 
 def Err.name : Err → String
@@ -21,11 +23,39 @@ def Err.name : Err → String
   | .invalidJumpDest => "InvalidJumpDest" | .executionAborted => "ExecutionAborted"
   | .executionReverted => "ExecutionReverted" | .returnDataOutOfBounds => "ReturnDataOutOfBounds"
   | .insufficientBalance => "InsufficientBalance"
+  | .dataStackOverflow => "DataStackOverflow" | .unknownAddress => "UnknownAddress"
+  | .nonExistentAccount => "NonExistentAccount" | .illegalWrite => "IllegalWrite"
+  | .duplicateAddress => "DuplicateAddress" | .invalidBlockNumber => "InvalidBlockNumber"
+  | .blockNumberOutOfRange => "BlockNumberOutOfRange"
 
 structure Log where
   addr : Nat
   topics : List Nat
   data : ByteArray
+
+/-- an account as the VM sees it (Burrow acm.Account: EVM code, native balance; storage kept alongside) -/
+structure Account where
+  addr : Nat
+  code : ByteArray := .empty
+  balance : Nat := 0
+  storage : List (Nat × Nat) := []   -- absent = 0
+
+/-- the accounts that exist, as one call frame's cache sees them -/
+abbrev World := List Account
+
+namespace World
+def get (w : World) (a : Nat) : Option Account := w.find? (·.addr == a)
+def put (w : World) (acc : Account) : World := acc :: w.filter (·.addr != acc.addr)
+def del (w : World) (a : Nat) : World := w.filter (·.addr != a)
+def sload (w : World) (a k : Nat) : Nat :=
+  match w.get a with
+  | some acc => ((acc.storage.find? (·.1 == k)).map (·.2)).getD 0
+  | none => 0
+def sstore (w : World) (a k v : Nat) : World :=
+  match w.get a with
+  | some acc => w.put { acc with storage := (k, v) :: acc.storage.filter (·.1 != k) }
+  | none => w
+end World
 
 structure Frame where
   gas : Nat
@@ -35,11 +65,16 @@ structure Frame where
   mem : ByteArray := .empty        -- Burrow dynamicMemory.slice (its length is the "capacity")
   lastGasCost : Nat := 0           -- gasMemory.lastGasCost
   pc : Nat := 0
-  storage : List (Nat × Nat) := [] -- the frame's view of the callee's storage (absent = 0)
-  logs : List Log := []            -- newest first
+  world : World := []              -- this frame's cache: every account, with the frame's own updates
+  dirty : Bool := false            -- some account of the cache was updated (decides whether Sync writes anything)
+  removed : List Nat := []         -- accounts destroyed so far in this transaction
+  retBuf : ByteArray := .empty     -- return data of the last call
+  logs : List Log := []            -- newest first; a child frame's logs arrive here only when it succeeded
   refund : Nat := 0
   bigAlloc : Nat := 0              -- largest `make([]byte, n)` requested before gas was charged
   seen : Nat := 0                  -- bit set of opcodes executed (statistics only)
+  dev : Nat := 0                   -- specification mode: the first point where the implementation is known to deviate (0 = none)
+  devs : Nat := 0                  -- … and the bit set of all such points that were reached
 
 /-- what every computation of the model preserves -/
 def Inv (s s' : Frame) : Prop := s'.gas ≤ s.gas ∧ (s.err.isSome = true → s'.err.isSome = true)
@@ -83,12 +118,39 @@ instance : Monad M where
 @[inline] def setStack (st : List Nat) : M Unit := fun s => ⟨(some (), { s with stack := st }), Inv.refl s⟩
 @[inline] def setMem (m : ByteArray) : M Unit := fun s => ⟨(some (), { s with mem := m }), Inv.refl s⟩
 @[inline] def setPc (pc : Nat) : M Unit := fun s => ⟨(some (), { s with pc := pc }), Inv.refl s⟩
-@[inline] def setStorage (st : List (Nat × Nat)) : M Unit := fun s => ⟨(some (), { s with storage := st }), Inv.refl s⟩
+@[inline] def setWorld (w : World) : M Unit := fun s => ⟨(some (), { s with world := w, dirty := true }), Inv.refl s⟩
+@[inline] def setRemoved (r : List Nat) : M Unit := fun s => ⟨(some (), { s with removed := r }), Inv.refl s⟩
+@[inline] def setRetBuf (b : ByteArray) : M Unit := fun s => ⟨(some (), { s with retBuf := b }), Inv.refl s⟩
+/-- adopt a child frame's cache (Sync) -/
+@[inline] def syncChild (w : World) (dirty : Bool) (removed : List Nat) : M Unit := fun s =>
+  ⟨(some (), { s with world := w, dirty := s.dirty || dirty, removed := removed }), Inv.refl s⟩
+@[inline] def applySettled (w : World) (dirty : Bool) (removed : List Nat) : M Unit := fun s =>
+  ⟨(some (), { s with world := w, dirty := dirty, removed := removed }), Inv.refl s⟩
+
+/-- frameEventSink.flush: the child's events, oldest first in `ls`, reach this frame's list -/
+@[inline] def addLogs (ls : List Log) : M Unit := fun s => ⟨(some (), { s with logs := ls.reverse ++ s.logs }), Inv.refl s⟩
+@[inline] def orSeen (seen dev devs : Nat) : M Unit := fun s =>
+  ⟨(some (), { s with seen := s.seen ||| seen, dev := if s.dev == 0 then dev else s.dev, devs := s.devs ||| devs }), Inv.refl s⟩
+
+/-- subtract an amount the caller has checked to be available (big.Int.Sub on the frame's gas) -/
+@[inline] def takeGas (n : Nat) : M Unit := fun s => ⟨(some (), { s with gas := s.gas - n }), ⟨Nat.sub_le _ _, id⟩⟩
+
+/-- `gasBeforeCall := params.Gas … params.Gas.Add(params.Gas, refund); if params.Gas > gasBeforeCall { params.Gas.Set(gasBeforeCall) }`:
+    run `body`, add the refund it reports, never ending above the gas the frame had on entry -/
+@[inline] def withRefund (body : M (α × Nat)) : M α := fun s =>
+  match body s with
+  | ⟨(none, s'), h⟩ => ⟨(none, s'), h⟩
+  | ⟨(some (a, refund), s'), h⟩ =>
+    ⟨(some a, { s' with gas := min (s'.gas + refund) s.gas }), ⟨Nat.min_le_right _ _, h.2⟩⟩
 @[inline] def setLastGasCost (n : Nat) : M Unit := fun s => ⟨(some (), { s with lastGasCost := n }), Inv.refl s⟩
 @[inline] def addRefund (n : Nat) : M Unit := fun s => ⟨(some (), { s with refund := s.refund + n }), Inv.refl s⟩
 @[inline] def addLog (l : Log) : M Unit := fun s => ⟨(some (), { s with logs := l :: s.logs }), Inv.refl s⟩
 @[inline] def noteAlloc (n : Nat) : M Unit := fun s => ⟨(some (), { s with bigAlloc := max s.bigAlloc n }), Inv.refl s⟩
 @[inline] def noteSeen (op : Nat) : M Unit := fun s => ⟨(some (), { s with seen := s.seen ||| (1 <<< op) }), Inv.refl s⟩
+
+/-- specification mode: remember the first known deviation point that was reached -/
+@[inline] def noteDev (id : Nat) : M Unit := fun s =>
+  ⟨(some (), { s with dev := if s.dev == 0 then id else s.dev, devs := s.devs ||| (1 <<< id) }), Inv.refl s⟩
 
 /-- take the memory out of the frame so that it can be updated in place -/
 @[inline] def takeMem : M ByteArray := fun s => ⟨(some s.mem, { s with mem := .empty }), Inv.refl s⟩
